@@ -36,6 +36,10 @@ def opsC17Factor : Handler := fun st fields =>
     match BaseKind.parse a, BaseKind.parse b with
     | some x, some y => some (st, s!"ok\t{(ratioKind x y).str}")
     | _, _ => none
+  | ["c17.foffsetkind", fk] =>
+    match FactorKind.parse fk with
+    | some fk => some (st, s!"ok\t{(offsetKind fk).str}")
+    | none => none
   | ["c17.froute", fk, r, k, s, q] =>
     match FactorKind.parse fk, Route.parse r, parseDtype k s, parseBool q with
     | some fk, some r, some d, some q =>
@@ -48,6 +52,30 @@ def opsC17Factor : Handler := fun st fields =>
         | .error e => some (st, s!"err\t{e.str}")
       else some (st, dtOut (routeDtypeF liveNumpy liveRules liveFactor liveFactorRules fk r d q))
     | _, _, _, _ => none
+  | ["c17.foroute", fk, r, k, s, q] =>
+    match FactorKind.parse fk, Route.parse r, parseDtype k s, parseBool q with
+    | some fk, some r, some d, some q =>
+      if r == .toValue then
+        match toValueOutOf liveNumpy liveRules
+            (withOffset liveNumpy liveFactor liveOffsetRules.copyStep fk true
+              (copyDtypeStaged liveNumpy liveRules liveFactor liveFactorRules.copyCastKinds.contains fk d)) q with
+        | .ok .pyfloat => some (st, "ok\tpyfloat\t8")
+        | .ok .pycomplex => some (st, "ok\tpycomplex\t16")
+        | .ok (.ndarray x) => some (st, dtOut (.ok x))
+        | .error e => some (st, s!"err\t{e.str}")
+      else some (st, dtOut (routeDtypeO liveNumpy liveRules liveFactor liveFactorRules liveOffsetRules fk true r d q))
+    | _, _, _, _ => none
+  | ["c17.fovalue", route, fk, k, s, e, f, o] =>
+    match FactorKind.parse fk, parseDtype k s, parseElem e, fb f, parseOffset o with
+    | some fk, some d, some e, some f, some o =>
+      if route == "copy" then
+        some (st, valOut (inUnitsElemO liveNumpy liveRules liveFactor liveFactorRules.copyCastKinds liveOffsetRules.copyStep floatOps fk d e f o))
+      else if route == "inbase" then
+        some (st, valOut (inUnitsElemO liveNumpy liveRules liveFactor liveFactorRules.inBaseCastKinds liveOffsetRules.inBaseStep floatOps fk d e f o))
+      else if route == "inplace" then
+        some (st, valOut (convertToUnitsElemO liveNumpy liveRules liveFactor liveOffsetRules.inplaceStep floatOps fk d e f o))
+      else none
+    | _, _, _, _, _ => none
   | ["c17.fvalue", route, fk, k, s, e, f, o] =>
     match FactorKind.parse fk, parseDtype k s, parseElem e, fb f, parseOffset o with
     | some fk, some d, some e, some f, some o =>
